@@ -4,6 +4,7 @@ CONSTANTS
   MaxOps = 2
   CpsMode = FALSE
   Wide = TRUE
+  Paths = FALSE
 INVARIANT RoundTripMin
 INVARIANT RoundTripFull
 INVARIANT RoundTripBws
